@@ -63,7 +63,10 @@ def ir_rules(run, u, r_static, r_lookup, r_copy, r_access, r_table=None):
                                       short, sym.show(v)[:160], other, " (its address, for an indirect policy)" if indirect else ""), ins.where())
             elif tb and not is_final:
                 d = vptr.lookup_descriptor(S2, f, v)
-                ref = dv.get(other) or (list(dv.values())[0] if dv else None)
+                ref = dv.get(other)
+                if ref is None and dv:
+                    run.broken.append("no Policy::dynamic_vptr<%s> in the unit to compare the constructor's dynamic route with" % other)
+                    continue
                 if d is None or ref is None:
                     run.instance(r_lookup, "%s: dynamic route" % short, ins.where(), ok=False)
                     run.violation(r_lookup, "virtual_ptr::virtual_ptr(Other&&)|dynamic-shape", "%s: the dynamic route's v-table pointer %s is not an element of the policy's table (or no dynamic_vptr<%s> to compare with)" % (short, sym.show(v)[:200], other), ins.where())
